@@ -147,6 +147,8 @@ class StubBTP:
             self.sim.log.append({"k": "fault", "t": self.sim.kernel.now_us, "kind": "send_error"})
             raise _Injected("injected send error")
         self.sim.on_btp(self.who, request)
+        if self.who == "tx":
+            self.sim.maybe_report_during_send(request)
         if self.forward is not None:
             try:
                 self.forward.btp_data_request(request)
@@ -260,6 +262,8 @@ class FacSim(NetSim):
         self.eva = None
         self.n_btp = 0
         self.n_timer = 0
+        self._early_done: set = set()      # tpv ops delivered early (while a CAM was being sent): skipped at their scheduled time
+        self._in_mid_send = False
         self.rx_last = None
         self._rx_cam = None
         self._rx_vam = None
@@ -391,9 +395,45 @@ class FacSim(NetSim):
     def _rx_cam_cb(self, cam):
         self.rx_last = cam
 
+    # -------------------------------------------------------------- fault: a position report arrives while a CAM is being sent
+    def maybe_report_during_send(self, request) -> None:
+        """The GNSS client delivers reports on its own thread; the CA service sends CAMs on its timer thread.  A report that arrives
+        while the timer thread is inside btp_data_request (CAM built, send state not yet updated) is a legal interleaving: the next
+        scheduled report is delivered here, re-entrantly, instead of at its scheduled time."""
+        ms = self.cfg.get("mid_send")
+        if not ms or self._in_mid_send or request.destination_port != 2001 or self.ca is None:
+            return
+        k = self.kernel
+        if keyed_unit(self.net_seed, "mid-send", self.n_btp) >= ms["rate"]:
+            return
+        nxt = None
+        for idx, op in enumerate(self.plan["ops"]):
+            if op["op"] == "tpv" and idx not in self._early_done and k.t0_us + op["t"] > k.now_us:
+                nxt = (idx, op)
+                break
+        if nxt is None or (k.t0_us + nxt[1]["t"]) - k.now_us > ms["max_ahead_us"]:
+            return
+        lock = getattr(self.ca.cam_transmission_management, "_tpv_lock", None)
+        if lock is not None:
+            if not lock.acquire(blocking=False):       # the sender holds it: the GNSS thread would block here - not simulated
+                self.probe("report-during-send-blocked")
+                return
+            lock.release()
+        st, cause = k.current_station, k.current_cause
+        self._in_mid_send = True
+        try:
+            self.fault("report_during_send")
+            self._early_done.add(nxt[0])
+            self._fac_op(nxt[0], nxt[1])
+        finally:
+            self._in_mid_send = False
+            k.current_station, k.current_cause = st, cause
+
     # -------------------------------------------------------------- ops
     def _fac_op(self, idx: int, op: dict) -> None:
         k = self.kernel
+        if idx in self._early_done and not self._in_mid_send:
+            return
         k.current_station = self.TX
         k.current_cause = ("op", idx)
         kind = op["op"]
@@ -1243,6 +1283,10 @@ def gen_fac_plan(run_seed: int, tier: str, prop: str) -> dict:
         first = next((o["tpv"] for o in ops if o["op"] == "tpv" and "lat" in o["tpv"] and "lon" in o["tpv"]), {"lat": 41.0, "lon": 2.0})
         pos = [int(round(first["lat"] * 1e7)), int(round(first["lon"] * 1e7))]
         stations = [{"mac": "02aabbccdd01", "st": 5, "pos": pos}, {"mac": "02aabbccdd02", "st": 5, "pos": pos}]
+    # fault (own PRNG stream): the next position report is delivered while a CAM is being sent (GNSS thread vs CAM timer thread)
+    rm = random.Random(run_seed ^ 0x3D5E9D)
+    if has_ca and not c11 and rm.random() < 0.3:
+        cfg["mid_send"] = {"rate": rm.choice([0.1, 0.3, 0.6]), "max_ahead_us": int(1.5 * dt_us)}
     return {"engine": "fac", "property": prop, "config": cfg, "stations": stations, "host": host, "ops": ops}
 
 
